@@ -62,6 +62,8 @@ open Ezpz
 #check @GN.linear_consistent_converges
 #check @GN.gap_exists
 #check @GN.linear_consistent_converges_from_guess
+#check @GN.linear_converges_to_least_squares        -- ... and INCONSISTENT systems converge to the least-squares point nearest the guess
+#check @newtonLoop_result_contracts_ls               -- ... for the result of the model's loop
 #check @linear_kinds_affine
 
 /-! ### C05 — freedom analysis -/
@@ -114,6 +116,7 @@ open Ezpz
 #check @C11.converged_guess_untouched
 #check @C11.resolve_is_identity
 #check @C11.resolve_untouched
+#check @StepEx.step_stop_not_fixed_point             -- a step-size stop is NOT a fixed point (the restriction is necessary)
 #check @C11.converged_guess_untouched_append
 #check @C11.converged_guess_untouched_real
 
